@@ -436,4 +436,21 @@ def Result.map {Out Out' : Type} (ψ : Out → Out') : Result Out → Result Out
   | .ok outs => .ok (outs.map ψ)
   | .raised => .raised
 
+/-! ## small named objects used by the property statements -/
+
+/-- what `n` successive calls return when the stream starts at `g`: consecutive segments. -/
+def segments {G Draw Out : Type} (A : GenAlg G Draw Out) : G → List (Call Draw) → List (Option (Result Out))
+  | _, [] => []
+  | g, c :: cs => some (result A g c) :: segments A (advDraws A g c.draws) cs
+
+/-- a counter is an acyclic generator algebra (non-vacuity of `Acyclic`, witness of the wrapper counterexample). -/
+def ctr : GenAlg Nat Nat Nat := ⟨fun g d => g + d + 1, fun g d => 1000 * g + d, fun n => 1000000 * n⟩
+
+/-- The model of the code as found: `Univariate.sample` is not decorated and delegates to an
+instance built without the seed. -/
+def wrapperAsFound : Config := configOf asFoundTable fun _ => "Univariate"
+
+/-- … and after the repair (decorating `Univariate.sample`). -/
+def wrapperRepaired : Config := configOf repairedTable fun _ => "Univariate"
+
 end CopVerif.Model.Rng
